@@ -102,25 +102,16 @@ def run(ctx):
             try:
                 v = predeval.ev(f, o, env)
             except predeval.Unknown as e:
-                # the pre-read loop's own tests (offset != len, read == 0): follow the loop exit / data side
-                if f.in_loop(bb):
-                    asg["loop%d" % bb] = True
-                    tgt = bs[2] if rc in f.reach([bs[2]], blocked={bb}, unwind=False) else bs[1]
-                    return ("loop%d" % bb, {True: tgt})
-                raise CheckerError("C03.1: cannot evaluate guard at %s: %s (%s)" % (f.loc(bb), e, origin_str(o)))
+                return None     # not a framing decision (e.g. the pre-read loop's own tests): explore both sides
             asg["g%d" % bb] = bool(v)
             return ("g%d" % bb, {True: bs[1], False: bs[2]})
-        built = []
-        sized = []
-        def on_block(bb):
-            if bb in box_calls:
-                built.append(call_name(box_calls[bb]) if False else (box_calls[bb].get("res_name") or ""))
-            t = f.term(bb)
-            if t["t"] == "call" and call_matches(t, r"EqualReader::<R>::new$"):
-                sized.append(origin_str(f.origin(t["args"][1])))
-        end, visited = shared.walk_decision(f, start, atom_of, asg, {rc}, on_block)
+        class Lazy(dict):
+            def __missing__(self, k):
+                return asg_vals[k]
+        asg_vals = asg
+        paths = shared.walk_paths(f, start, atom_of, asg, {rc} | set(f.returns()))
         rows += 1
-        ctx.paths += 1
+        ctx.paths += len(paths)
         if up:
             want = "raw"
         elif te:
@@ -131,11 +122,17 @@ def run(ctx):
             want = "buffer"
         else:
             want = "equal"
-        readers = [b for b in built if "dyn std::io::Write" not in b and "SequentialWriter" not in b and not re.search(r"Box::<W>::new$", b)]
-        got = [k for k, rx in EXPECTED_READER.items() for b in readers if re.search(rx, b)]
-        table[(up, te, cl, ex)] = got
-        if end is None or got != [want]:
-            bad.append(((up, te, cl, ex), got or readers, want))
+        gots = []
+        for end, visited in paths:
+            if end != rc:
+                continue      # error returns of the pre-read loop
+            built = [(box_calls[b].get("res_name") or "") for b in visited if b in box_calls]
+            readers = [b for b in built if "dyn std::io::Write" not in b and "SequentialWriter" not in b and not re.search(r"Box::<W>::new$", b)]
+            got = [k for k, rx in EXPECTED_READER.items() for b in readers if re.search(rx, b)]
+            gots.append(got or readers)
+        table[(up, te, cl, ex)] = gots
+        if not gots or any(g != [want] for g in gots):
+            bad.append(((up, te, cl, ex), gots[:2], want))
     ctx.counts["C03.1 rows"] = rows
     ctx.ob("C03.1", "%s|framing-table" % f.id,
            "for every combination of upgrade / Transfer-Encoding / Content-Length class / Expect the body reader is: raw stream for upgrade; chunk decoder when Transfer-Encoding is present; empty for no or zero length; a pre-read buffer for 1..=1024 without Expect; a length-limited reader otherwise",
@@ -191,7 +188,8 @@ def run(ctx):
                     bs = bool_switch(g, b)
                     if bs:
                         c = g.origin(bs[0])
-                        if c[0] == "binop" and c[1] in ("Lt", "Le") and origin_has_call(c[2], r"::len$") and "size" in origin_fields(c[3]) and g.dominates(bs[1], x[1], unwind=False) and bs[1] != bs[2]:
+                        if c[0] == "binop" and c[1] in ("Lt", "Le") and origin_has_call(c[2], r"::len$") and "size" in origin_fields(c[3]) \
+                                and not any(y[0] in ("binop", "call") for y in origin_walk(c[3])) and g.dominates(bs[1], x[1], unwind=False) and bs[1] != bs[2]:
                             fine = True
                 detail.append("whole-buffer%s" % ("" if fine else " UNGUARDED"))
                 okb = okb and fine
@@ -227,7 +225,11 @@ def run(ctx):
 
     # ---- C03.3 pre-read loop fills exactly Content-Length bytes
     pre = [(bb, t) for bb, t in f.calls() if t.get("callee") == "std::io::Read::read" and f.in_loop(bb)]
-    ctx.require(len(pre) == 1, "C03.3: pre-read loop not found")
+    if len(pre) != 1:
+        anyread = [bb for bb, t in f.calls() if t.get("callee") == "std::io::Read::read"]
+        ctx.ob("C03.3", "%s|loop-until-full" % f.id, "small bodies are read in a loop until Content-Length bytes have arrived", False, f.loc(anyread[0]) if anyread else f.file,
+               "the parse-time read of the body is not inside a loop (%d looping reads)" % len(pre))
+        return finish_c03(ctx, facts, f, dom)
     pb, pt = pre[0]
     obuf = f.origin(pt["args"][1])
     fe = [y for y in origin_calls(obuf) if re.search(r"vec::from_elem", y[1])]
@@ -238,6 +240,10 @@ def run(ctx):
     o = f.origin(bool_switch(f, h)[0])
     ok = o[0] == "binop" and o[1] in ("Ne", "Lt") and any(x == ("local", CL) for x in origin_walk(o[3])) and o[2][0] == "local"
     ctx.ob("C03.3", "%s|loop-until-full" % f.id, "the loop runs until the filled count equals Content-Length", ok, f.loc(h), origin_str(o))
+    return finish_c03(ctx, facts, f, dom)
+
+
+def finish_c03(ctx, facts, f, dom):
     # ---- C03.4 fused
     insts = [i for i in facts.instances_of(f.id) if not i["generic"] and "SequentialReader<" in i["name"]]
     ctx.require(len(insts) == 1, "C03.4: connection instance of new_request")
